@@ -28,7 +28,7 @@ from vlib.result import Result, rng_for, scratch
 PROPERTY = "C04"
 LEVEL = "fault_enumeration"
 RULE = ("fault space = every executed statement (LINE event) of NP2Converter.* and Reader.compress_file during a conversion: quick = one to "
-        "two occurrences of each distinct (function, line) site (first / last), thorough = up to 5 occurrences per site, interrupt and "
+        "two occurrences of each distinct (function, line) site (first / last), thorough = EVERY event index of the trace (each executed statement occurrence), interrupt and "
         "kill semantics; each crash is followed by a retry (overwrite=False) and a forced re-run (overwrite=True). Histories: sequences of "
         "up to 3 process() calls over {overwrite F/T} x {post_check, compress, delete_original} in {F,T}^3 (options may change between "
         "steps) x {NP2.4 default / random shanks, NP2.1, NP1, already-split shank} x bin / cbin originals. Non-trivial: a history with >= 2 "
@@ -322,11 +322,11 @@ def gen_cases(seed, tier):
                       "seed": seed * 10000 + i, "_w": 1.5 * len(steps)})
     # ---- crash points: one case = one (kind, options) trace, split in slices of crash indices
     combos = [("NP2.4", 7), ("NP2.4", 3), ("NP2.4", 2), ("NP2.1", 2), ("NP2.4r", 5), ("NP2.1", 0), ("NP2.4", 0)]
-    nsl = 14 if tier == "quick" else 28
+    nsl = 14 if tier == "quick" else 56
     for ci, (kind, o) in enumerate(combos if tier == "thorough" else combos[:4]):
         for sl in range(nsl):
-            cases.append({"cls": "crash", "kind": kind, "opts": o, "slice": sl, "nslices": nsl, "occ": 2 if tier == "quick" else 5, "cbin": ci % 3 == 2,
-                          "seed": seed * 100 + ci, "_w": 6 if tier == "quick" else 14})
+            cases.append({"cls": "crash", "kind": kind, "opts": o, "slice": sl, "nslices": nsl, "occ": 2 if tier == "quick" else 10 ** 6, "cbin": ci % 3 == 2,
+                          "seed": seed * 100 + ci, "_w": 6 if tier == "quick" else 20})
     nkill = 6 if tier == "quick" else 60
     for i in range(nkill):
         cases.append({"cls": "kill", "kind": ["NP2.4", "NP2.1"][i % 2], "opts": [7, 2][i % 2], "k": i, "nk": nkill, "seed": seed * 100 + 50 + (i % 2), "_w": 4})
